@@ -857,3 +857,25 @@ def run(idx, rep, tier):
     from .shared import share
     from .c20 import r6 as _c20r6
     share(k, 'C07.R14', 'payload that follows a SOCKS request in the same segment is part of the stream (= C20.R6): the forwarder input buffer is only consumed from the front, never cleared', _c20r6)
+    rep.rule('C07.R15', 'SSHLineEditorSession.eof_received: the partly '
+             'typed line is handed over (editor.set_line_mode(False)) '
+             'before the wrapped session is told about EOF - every path to '
+             'self._orig_session.eof_received() passes the flush whenever '
+             'an editor exists')
+    _fe = k.func('editor.SSHLineEditorSession.eof_received')
+    _ge = k.cfg(_fe)
+    _fl = [n.id for n, c in k.calls_named(_fe, 'set_line_mode')]
+    _eo = [n for n, c in k.calls_named(_fe, 'eof_received',
+                                       'self._orig_session')]
+    rep.floor('C07.R15', 'EOF hand-overs', len(_eo), 1)
+    for _n in _eo:
+        _w = _ge.guarded_by(_n.id, lambda x: False if x.kind == 'atom' and
+                            dotted(x.ast) == 'self._editor' else None,
+                            extra_blocked=_fl)
+        rep.check(bool(_fl) and _w is None, 'C07.R15',
+                  key(_fe, 'pending line before EOF'),
+                  'set_line_mode(False) precedes the EOF callback',
+                  'on a PTY session an unterminated last line reaches the '
+                  'application after eof_received(): data, eof, data - and '
+                  'is lost when stdin is redirected to a file',
+                  k.loc(_fe, _n), _ge.describe_path(_w) if _w else None)
